@@ -41,6 +41,9 @@ func main() {
 			svcSessions(run, run.Pick(40, 300))
 		case "recv":
 			recvSessions(run, run.Pick(200, 2000))
+			smallRecvOps(run)
+			hrecvSessions(run, run.Pick(200, 2000))
+			fancOps(run, run.Pick(150, 1500))
 		case "fetch":
 			unlinkedAnnouncement(run)
 			fetchSessions(run, run.Pick(500, 6000))
@@ -60,6 +63,9 @@ func main() {
 	lateFinderReply(run)
 	svcSessions(run, run.Pick(40, 300))
 	recvSessions(run, run.Pick(200, 2000))
+	smallRecvOps(run)
+	hrecvSessions(run, run.Pick(200, 2000))
+	fancOps(run, run.Pick(150, 1500))
 	e2eRuns(run, run.Pick(60, 500))
 	wireRuns(run, run.Pick(24, 200))
 }
